@@ -258,7 +258,7 @@ impl Property for C02 {
         "C02"
     }
     fn cases(&self, tier: Tier) -> u32 {
-        tier.pick(12_000, 160_000)
+        tier.pick(60_000, 600_000)
     }
     fn strategy(&self, tier: Tier) -> BoxedStrategy<Self::Abs> {
         let s = match tier {
